@@ -77,6 +77,14 @@ def check(prog: Program, rep):
     rep.rule("C07.R6", "node-weighted input: expansion scheme, attribute handling (missing => ignored, present incl. 0 => weighted)", floor=12)
     from rules.common import node_mode_plumbing
     node_mode_plumbing(prog, rep, "C07.R6")
+    rep.rule("C07.R8", "cyclic model: the repetition cap and the product bound are justified (exact flow row, weights >= 1); filters decide emptiness on the "
+             "internal route (C01.R5); given-weights error bound covers the sum of the given weights", floor=6)
+    from rules.bounds import cap_premises, given_weights_error_bound
+    cap_premises(prog, rep, "C07.R8", "kLeastAbsErrorsCycles", which=("P2", "P3", "P4"))
+    given_weights_error_bound(prog, rep, "C07.R8")
+    from rules.common import RuleProxy as _RP
+    from rules import ns as _ns
+    _ns.arity_rule(prog, _RP(rep, "C07.R8"), "C01.R5", only=("kLeastAbsErrors", "kLeastAbsErrorsCycles"))
     rep.rule("C07.R7", "cyclic model: the walks handed out traverse every edge exactly as often as the solver decided (linear-use rule of C14.R1)", floor=6)
     from rules import c14
     from rules.common import RuleProxy
@@ -85,3 +93,5 @@ def check(prog: Program, rep):
     c14.trail_loop_rule(prog, px, "C14.R1", prog.own_method("AbstractWalkModelDiGraph", "_build_closed_walk_from_vertex"), ("closed_walk",))
     c14.residual_rule(prog, px, "C14.R1")
     c14.splice_rule(prog, px, "C14.R1")
+    from rules.providers import given_weights_integral
+    given_weights_integral(prog, rep, "C07.R8", ["kLeastAbsErrors"])
